@@ -128,6 +128,10 @@ void h_search(void)
   __CPROVER_assume(MODE == 1 || (SCR[0] != 0xFD && SCR[1] != 0xFD && SCR[2] != 0xFD && SCR[3] != 0xFD && SCR[4] != 0xFD && SCR[5] != 0xFD && SCR[6] != 0xFD && SCR[7] != 0xFD));
   for (unsigned i = 0; i < 8; i++) IORA_ENV_SCRIPT[i] = SCR[i];
   IORA_ENV_i = 0; IORA_TRUE = 1; IORA_HOOK_ALLOWS = 1;
+  /* statics are nondeterministic (--nondet-static): the concrete scenario starts every ghost at 0 */
+  G_received = 0; G_delivered = 0; G_recv_calls = 0; G_sslr_calls = 0; G_rd_pos_calls = 0; G_rd_last = 0; G_errno = 0; G_ssl_last_ret = 0; G_ssl_last_err = 0;
+  G_close_calls = 0; G_close_seq = 0; G_close_sid = 0; G_close_why = 0; G_hook_veto = 0; G_dcb_calls = 0; G_dcb_seq = 0; G_dcb_sid = 0; G_seq = 0;
+  G_ep_fd = 0; G_ep_events = 0; G_ep_op = 0; G_ep_epfd = 0; G_ep_mods = 0; G_ep_dels = 0; G_ep_seq = 0; G_env_kind = 0; G_ssl_last_op = 0; G_ssl_fatal = 0;
   TcpEngine E = {0}; TcpEngine *self = &E;
   Session *s = malloc(sizeof(Session)); __CPROVER_assume(s != NULL);
   Session z = {0}; *s = z;
